@@ -376,6 +376,10 @@ pub fn run_limit(cmd: &Cmd, cwd: &Path, limit: Duration) -> Out {
             }
         }));
     }
+    // with `stderr_reader_leaves_after`, stdin bytes are held back until the stderr reader has left, so that the order
+    // "progress text read, reader gone, input processed, final status printed" does not depend on timing
+    let err_left = std::sync::Arc::new(std::sync::atomic::AtomicBool::new(cmd.stderr_reader_leaves_after.is_none()));
+    let err_left_w = err_left.clone();
     let stdin_thread = if pty_stdin {
         None
     } else if cmd.stdin_socket_reset.is_some() {
@@ -397,6 +401,10 @@ pub fn run_limit(cmd: &Cmd, cwd: &Path, limit: Duration) -> Out {
         splits.dedup();
         Some(std::thread::spawn(move || {
             use std::os::unix::io::AsRawFd;
+            let t_gate = Instant::now();
+            while !err_left_w.load(std::sync::atomic::Ordering::SeqCst) && t_gate.elapsed() < Duration::from_secs(15) {
+                std::thread::sleep(Duration::from_millis(1));
+            }
             let mut at = 0usize;
             for sp in splits {
                 if si.write_all(&b[at..sp]).is_err() {
@@ -482,6 +490,7 @@ pub fn run_limit(cmd: &Cmd, cwd: &Path, limit: Duration) -> Out {
                 drop(se);
             }
         }
+        err_left.store(true, std::sync::atomic::Ordering::SeqCst);
         v
     });
     let mut timed_out = false;
